@@ -91,6 +91,31 @@ impl<'a> FieldParser<'a> {
         ))
         .unwrap();
 
+        // Optional scalar and enum values are read directly from the span:
+        // check that the span holds the value when the condition is met.
+        let optional_width = match &field.desc {
+            ast::FieldDesc::Scalar { width, .. } => Some(*width),
+            ast::FieldDesc::Typedef { type_id, .. } => match &self.scope.typedef[type_id].desc {
+                ast::DeclDesc::Enum { width, .. } => Some(*width),
+                _ => None,
+            },
+            _ => None,
+        };
+        if let Some(width) = optional_width {
+            let span = self.span;
+            let packet_name = &self.packet_name;
+            let wanted = proc_macro2::Literal::usize_unsuffixed(width / 8);
+            self.tokens.extend(quote! {
+                if #cond_id == #cond_value && #span.remaining() < #wanted {
+                    return Err(DecodeError::LengthError {
+                        obj: #packet_name,
+                        wanted: #wanted,
+                        got: #span.remaining(),
+                    });
+                }
+            });
+        }
+
         self.tokens.extend(match &field.desc {
             ast::FieldDesc::Scalar { id, width } => {
                 let id = id.to_ident();
